@@ -311,6 +311,8 @@ class Report:
             seen.add(key)
             nviol += 1
             if nviol > 5:
+                if os.environ.get("VERIF_DEBUG"):
+                    log("  [more] " + what)
                 continue
             path = os.path.join(rdir, "replay_%s_%d.json" % (self.tier, nviol))
             with open(path, "w") as f:
